@@ -551,7 +551,8 @@ func (r *runner) runWF() {
 	}
 	lap("http cases")
 	r.filtered()
-	lap("filtered")
+	r.nilOutcomes()
+	lap("filtered, nil outcomes")
 	r.longTexts()
 	lap("long texts")
 	r.pipelined(reg)
